@@ -245,6 +245,26 @@ def zero_strain_calls(h, Q=None):
     return nz, nn
 
 
+def gbs_ambiguous(hists, n, chi, margin):
+    """grains whose volume fraction came within `margin` of the sliding threshold chi/n at ANY solver step of ANY
+    update in one of the histories: apply_gbs resets such a grain's orientation to the start-of-update one in a run
+    where it is (just) below and lets it rotate in a run where it is (just) above -- a discontinuity of the model
+    (C09) at which two runs that agree within solver tolerance may differ by O(1).  Such grains are excluded from
+    the paired ORIENTATION comparison and counted (their fractions are still compared)."""
+    amb = np.zeros(n, dtype=bool)
+    if not chi > 0:
+        return amb
+    thr = chi / n
+    for h in hists:
+        for u in h["updates"]:
+            for y in u["trace"].step_ys:
+                f = np.clip(np.asarray(y, dtype=float)[9 + 9 * n:9 + 10 * n], 0, None)
+                tot = f.sum()
+                if tot > 0:
+                    amb |= np.abs(f / tot - thr) <= margin
+    return amb
+
+
 def integrated_oracle(rec, sc, pair_seed, qkind="haar", pickmode="half", chk=None, bad=None, repeat=True):
     """C04 for integrated textures, read directly on Mineral.update_orientations: the scenario in the
     original frame, in a rotated frame and with a two-fold relabelled initial texture.  Everything
@@ -277,7 +297,9 @@ def integrated_oracle(rec, sc, pair_seed, qkind="haar", pickmode="half", chk=Non
         res["fails"].append(f"integrated texture: the history raises {type(hq['error']).__name__} in a rotated frame only")
     else:
         mq = hq["mineral"]
-        dO = float(np.abs(np.asarray(mq.orientations[-1]) - np.einsum("nij,kj->nik", O_end, Q)).max())
+        keep = ~gbs_ambiguous((h0, hq), sc["n"], float(h0["params"]["gbs_threshold"]), ftol)
+        res["gbs_ambiguous"] = res.get("gbs_ambiguous", 0) + int((~keep).sum())
+        dO = float(np.abs(np.asarray(mq.orientations[-1]) - np.einsum("nij,kj->nik", O_end, Q))[keep].max()) if keep.any() else 0.0
         df = float(np.abs(np.asarray(mq.fractions[-1]) - f_end).max())
         dF = float(np.abs(hq["F"] - Q @ h0["F_hist"][-1] @ Q.T).max())
         res["worst"] = max(res["worst"], dO / tol)
@@ -299,7 +321,9 @@ def integrated_oracle(rec, sc, pair_seed, qkind="haar", pickmode="half", chk=Non
         res["fails"].append(f"integrated texture: the history raises {type(h2['error']).__name__} for symmetry-equivalent grains only")
     else:
         m2 = h2["mineral"]
-        dO = float(np.abs(np.asarray(m2.orientations[-1]) - relabel(O_end)).max())
+        keep = ~gbs_ambiguous((h0, h2), sc["n"], float(h0["params"]["gbs_threshold"]), ftol)
+        res["gbs_ambiguous"] = res.get("gbs_ambiguous", 0) + int((~keep).sum())
+        dO = float(np.abs(np.asarray(m2.orientations[-1]) - relabel(O_end))[keep].max()) if keep.any() else 0.0
         df = float(np.abs(np.asarray(m2.fractions[-1]) - f_end).max())
         res["worst"] = max(res["worst"], dO / tol)
         if dO > tol or df > ftol:
@@ -434,6 +458,7 @@ def run(chk):
                 # exactly antisymmetric takes the ordinary path; the partner is built exactly instead
                 chk.cov["near_discontinuity"] = chk.cov.get("near_discontinuity", 0) + res["naive_leaves_branch"]
                 chk.cov["integrated_naive_rotation_leaves_zero_branch"] = chk.cov.get("integrated_naive_rotation_leaves_zero_branch", 0) + res["naive_leaves_branch"]
+                chk.cov["integrated_grains_at_gbs_threshold_excluded"] = chk.cov.get("integrated_grains_at_gbs_threshold_excluded", 0) + res.get("gbs_ambiguous", 0)
                 chk.note_case(("integrated", sc["seed"]), nontrivial=True)
                 if res["fails"]:
                     mon.append((dict(sc=sc, pair_seed=pair_seed, qkind=qkind, pickmode=pickmode, res=res), res["fails"]))
